@@ -1,3 +1,188 @@
-(* C09 — the layered key-value store behaves as one ordered map on every backend (draft). *)
-From NG Require Import Common.Tactics Store.Bytes Store.Model Store.Spec.
+(* C09 — the layered key-value store behaves as one ordered map on every backend.
+   Statements only; every proof is [exact lemma].  Model: Store/Model.v (mechanism, with the repairs fixes/F1, fixes/F2),
+   specification: Store/Spec.v ([flat], [range_query]); interleavings: Store/Conc.v. *)
+From NG Require Import Common.Tactics Store.Bytes Store.Model Store.Spec Store.MapLemmas Store.MergeProof
+  Store.Refine Store.Conc Store.Legacy.
 Open Scope N_scope.
+
+(* ---- point reads ---- *)
+(* Get through any stack of layers (tombstones hide lower values) = lookup in the one flattened map *)
+Theorem C09_get_refines : forall s k, wf s -> store_get s k = spec_get s k.
+Proof. exact get_refines. Qed.
+Print Assumptions C09_get_refines.
+
+(* ---- range scans ---- *)
+(* the mechanism of performSeek (closure state kvMem/haveMem/iMem, inner loop, trimming of the local copy, tail loop)
+   computes the plain ordered merge of the sorted cache snapshot with the lower answer, for both directions,
+   with and without trimming, whether or not the lower store is consulted *)
+Theorem C09_performseek_is_merge : forall bw cut lp memRes lower,
+  sorted bw memRes -> sorted bw (match lower with Some ps => ps | None => [] end) ->
+  perform_seek bw cut lp memRes lower =
+  trim cut lp (smerge bw memRes (match lower with Some ps => ps | None => [] end)).
+Proof. exact perform_seek_is_merge. Qed.
+Print Assumptions C09_performseek_is_merge.
+
+(* Seek / SeekAsync on any stack, any backend, for every prefix, start, direction, search depth, with or without
+   trimming: the emitted list IS the range query on the flattening of the top [rdepth] layers *)
+Theorem C09_seek_refines : forall s cut r, wf s -> layers s <> [] -> range_ok r ->
+  store_seek s cut r = spec_seek s cut r.
+Proof. exact seek_refines. Qed.
+Print Assumptions C09_seek_refines.
+
+(* that list is strictly ordered in the seek direction (so: no duplicates) ... *)
+Theorem C09_seek_sorted : forall s r, wf s -> sorted (rback r) (rq r (flat_depth (rdepth r) s)).
+Proof. exact seek_sorted. Qed.
+Print Assumptions C09_seek_sorted.
+
+(* ... and contains exactly the pairs of the one map that lie in the range (nothing omitted, nothing invented) *)
+Theorem C09_seek_complete : forall s r k, wf s ->
+  lookup k (rq r (flat_depth (rdepth r) s)) =
+  if in_range (rprefix r) (rstart r) (rback r) k then lookup k (flat_depth (rdepth r) s) else None.
+Proof. exact seek_complete. Qed.
+Print Assumptions C09_seek_complete.
+
+(* dao.Simple.Seek / SeekAsync and the Storage.Find iterator: the contract's own keys, header cut *)
+Theorem C09_dao_seek_refines : forall s id r, wf s -> layers s <> [] -> range_ok r ->
+  dao_seek s id r = spec_dao_seek s id r.
+Proof. exact dao_seek_refines. Qed.
+Print Assumptions C09_dao_seek_refines.
+
+Theorem C09_dao_seek_async_refines : forall s id r, wf s -> layers s <> [] -> range_ok r ->
+  dao_seek_async s id r = spec_dao_seek s id r.
+Proof. exact dao_seek_async_refines. Qed.
+Print Assumptions C09_dao_seek_async_refines.
+
+Theorem C09_find_keep_refines : forall s id r, wf s -> layers s <> [] -> range_ok r ->
+  find_keep s id r = spec_find_keep s id r.
+Proof. exact find_keep_refines. Qed.
+Print Assumptions C09_find_keep_refines.
+
+(* ---- backends ---- *)
+(* MemoryStore's filter+sort, LevelDB's range iterator and Bolt's cursor loop over [Start, Limit) of
+   seekRangeToPrefixes all return the range query on their content, including all-0xff prefixes (nil limit) *)
+Theorem C09_base_seek_is_range_query : forall bk r b, range_ok r -> keys_ok b -> sorted false b ->
+  base_seek bk r b = rq r b.
+Proof. exact base_seek_rq. Qed.
+Print Assumptions C09_base_seek_is_range_query.
+
+Theorem C09_backend_agree : forall bk1 bk2 r b, range_ok r -> keys_ok b -> sorted false b ->
+  base_seek bk1 r b = base_seek bk2 r b.
+Proof. exact backend_agree. Qed.
+Print Assumptions C09_backend_agree.
+
+(* ---- flushing ---- *)
+(* Persist of any layer (shared anywhere in the stack, private on top) and PersistPrivate leave the one map unchanged *)
+Theorem C09_persist_step_flat : forall s, wf s ->
+  (forall i, flat (step s (OPersist i)) = flat s) /\ flat (step s OPersistPrivate) = flat s.
+Proof. exact persist_step_flat. Qed.
+Print Assumptions C09_persist_step_flat.
+
+(* hence no Get and no full-depth Seek changes its answer when a layer is flushed *)
+Theorem C09_flush_changes_no_answer : forall s o, wf s -> layers s <> [] ->
+  (match o with OPersist _ | OPersistPrivate => True | _ => False end) ->
+  (forall k, store_get (step s o) k = store_get s k) /\
+  (forall cut r, range_ok r -> rdepth r = 0 -> store_seek (step s o) cut r = store_seek s cut r).
+Proof. exact flush_changes_no_answer. Qed.
+Print Assumptions C09_flush_changes_no_answer.
+
+(* ---- histories ---- *)
+(* after ANY sequence of put/delete/wrap/persist/persist-private/drop on any backend *)
+Theorem C09_history_refines : forall bk ops, Forall op_ok ops ->
+  let s := run (init bk) ops in
+  (forall k, store_get s k = spec_get s k) /\
+  (forall cut r, range_ok r -> store_seek s cut r = spec_seek s cut r).
+Proof. exact history_refines. Qed.
+Print Assumptions C09_history_refines.
+
+(* ---- readers against writers and a concurrent Persist (lock-region granularity) ---- *)
+(* every lock region of Persist (swap, write below, unswap) and both reader steps leave the one map unchanged;
+   a write changes it by exactly its batch *)
+Theorem C09_persist_regions_preserve_flat : forall c a, cwf c ->
+  match a with
+  | AWrite b => sorted false b -> cflat (cstep c a) = apply_writes b (cflat c)
+  | _ => cflat (cstep c a) = cflat c
+  end.
+Proof. exact persist_regions_preserve_flat. Qed.
+Print Assumptions C09_persist_regions_preserve_flat.
+
+(* PARTIAL.  For every schedule in which no NEW Persist swap falls between the reader's snapshot and its read of the
+   captured lower store (writers, the pending write below and the unswap may fall there), the reader's answer is the
+   range query on the one ordered map at the instant of its snapshot.  What is missing for the full statement: the
+   case of a swap inside the window, where the statement is false (next theorem). *)
+Theorem C09_reader_atomic_partial : forall c0 pre r mid,
+  cwf c0 -> rsnap c0 = None -> rans c0 = None ->
+  Forall batch_ok pre -> Forall batch_ok mid ->
+  Forall (fun a => match a with ASnap _ | ARead => False | _ => True end) pre ->
+  Forall no_swap_or_reader mid ->
+  range_ok r ->
+  let c1 := crun c0 pre in
+  rans (crun c0 (pre ++ ASnap r :: mid ++ [ARead])) = Some (rq r (cflat c1)).
+Proof. exact reader_atomic_partial. Qed.
+Print Assumptions C09_reader_atomic_partial.
+
+(* the full statement (answer = the one map at SOME instant of the reader's interval, for EVERY schedule) ... *)
+Definition C09_reader_atomic_statement : Prop := reader_atomic_statement.
+(* ... does not hold for the mechanism: finding F41 (the same schedule replayed on the implementation is corpus case 2) *)
+Theorem C09_reader_atomic_refuted : ~ C09_reader_atomic_statement.
+Proof. exact reader_atomic_refuted. Qed.
+Print Assumptions C09_reader_atomic_refuted.
+
+(* ---- the two repaired defects, as counter-examples of the unrepaired mechanisms ---- *)
+Theorem C09_F1_legacy_refuted :
+  exists memRes ps, sorted false memRes /\ sorted false ps /\
+    perform_seek_legacy false true 1 memRes ps <> trim true 1 (smerge false memRes ps) /\
+    perform_seek false true 1 memRes (Some ps) = trim true 1 (smerge false memRes ps).
+Proof. exact F1_legacy_refuted. Qed.
+Print Assumptions C09_F1_legacy_refuted.
+
+Theorem C09_F2_legacy_refuted :
+  exists r b, sorted false b /\ mem_seek_legacy r b <> level_seek r b /\ mem_seek_legacy r b <> bolt_seek r b /\
+              mem_seek r b = level_seek r b.
+Proof. exact F2_legacy_refuted. Qed.
+Print Assumptions C09_F2_legacy_refuted.
+
+(* ---- non-vacuity: the hypotheses are met by concrete, non-trivial states ---- *)
+
+(* a three-layer stack on Bolt reached by a history: shared over private over shared, tombstone, flushed base *)
+Definition ex_ops : list op :=
+  [OPut [112; 128] [1]; OPut [112; 128; 0] [2]; OPersist 0; OWrap true; OPut [112; 112; 128] [3]; ODel [112; 128; 0];
+   OWrap false; OPut [112; 255] [4]; OPut [112; 128; 255] [5]].
+Definition ex_s : stack := run (init BBolt) ex_ops.
+
+Example C09_ex_wf : wf ex_s /\ layers ex_s <> [] /\ length (layers ex_s) = 3%nat /\ base ex_s <> [].
+Proof.
+  split; [apply run_wf; [apply wf_init|repeat constructor; lia]|].
+  split; [apply run_nonempty; simpl; discriminate|]. split; vm_compute; [reflexivity|discriminate].
+Qed.
+
+(* trimmed forward seek over the doubled prefix (the F1 shape), backward seek from a start point whose extensions
+   live in different layers (the F2 shape), depth-limited seek, point read of a tombstoned key *)
+Example C09_ex_answers :
+  store_seek ex_s true {| rprefix := [112]; rstart := []; rback := false; rdepth := 0 |}
+    = [([112; 128], [3]); ([128], [1]); ([128; 255], [5]); ([255], [4])] /\
+  store_seek ex_s false {| rprefix := [112]; rstart := [128]; rback := true; rdepth := 0 |}
+    = [([112; 128; 255], [5]); ([112; 128], [1]); ([112; 112; 128], [3])] /\
+  store_seek ex_s false {| rprefix := [112]; rstart := []; rback := false; rdepth := 2 |}
+    = [([112; 112; 128], [3]); ([112; 128; 255], [5]); ([112; 255], [4])] /\
+  store_get ex_s [112; 128; 0] = None /\ store_get ex_s [112; 128] = Some [1].
+Proof. vm_compute. repeat split. Qed.
+
+Example C09_ex_range_ok : range_ok {| rprefix := [112]; rstart := [128]; rback := true; rdepth := 0 |}.
+Proof. split; repeat constructor; simpl; lia. Qed.
+
+(* a schedule that meets the hypotheses of C09_reader_atomic_partial with a Persist in flight across the window:
+   swap before the snapshot, a write, the write below and the unswap inside the window *)
+Definition ex_c0 : cstate :=
+  {| cbk := BLevel; cm := [([112; 1], Some [1])]; ctemp := None; cx := [([112; 3], [9])]; rsnap := None; rans := None |}.
+Example C09_ex_schedule :
+  let r := {| rprefix := [112]; rstart := []; rback := false; rdepth := 0 |} in
+  let pre := [AWrite [([112; 2], Some [2])]; ASwap; AWrite [([112; 3], None)]] in
+  let mid := [AWrite [([112; 1], Some [7])]; ALowerWrite; AUnswap] in
+  cwf ex_c0 /\ Forall no_swap_or_reader mid /\
+  rans (crun ex_c0 (pre ++ ASnap r :: mid ++ [ARead])) = Some [([112; 1], [1]); ([112; 2], [2])].
+Proof.
+  cbv zeta. split; [|split].
+  - unfold cwf, ex_c0; simpl. repeat split; auto; repeat constructor; simpl; lia.
+  - repeat constructor.
+  - vm_compute. reflexivity.
+Qed.
